@@ -1204,6 +1204,38 @@ pub fn gen_ops(r: &mut Rng, p: &GenParams, n_clients: u8, cfg: &Cfg, page: u32) 
     ops
 }
 
+/// Scripted motif: a chain that starts from another client's version, then a snapshot request naming
+/// an ancestor of that base in the other client's chain, then a look at the result.
+pub fn foreign_base_motif(r: &mut Rng, n_clients: u8, entry: Entry) -> Vec<Op> {
+        let a = r.below(n_clients as u64) as u8;
+        let dc = r.below(3) as u8;
+        let b = ((a as u16 + 1 + (dc as u16 % (n_clients as u16 - 1))) % n_clients as u16) as u8;
+        let mut tag = 900_000u32;
+        let mut mk = |r: &mut Rng| -> (Pay, Chunking) {
+            tag += 1;
+            (Pay { class: r.below(ops::N_CLASSES as u64) as u8, len: r.range(1, 50) as u32, tag }, Chunking::Whole)
+        };
+        let mut frag = vec![Op::Create { c: b }];
+        for _ in 0..r.range(2, 4) {
+            let (pay, ch) = mk(r);
+            frag.push(Op::AddVersion { c: b, parent: IdArg::Latest, pay, ch });
+        }
+        frag.push(Op::Create { c: a });
+        let (pay, ch) = mk(r);
+        frag.push(Op::AddVersion { c: a, parent: IdArg::Foreign { dc, back: r.below(2) as u8 }, pay, ch });
+        for _ in 0..r.range(0, 2) {
+            let (pay, ch) = mk(r);
+            frag.push(Op::AddVersion { c: a, parent: IdArg::Latest, pay, ch });
+        }
+        let (pay, ch) = mk(r);
+        frag.push(Op::AddSnapshot { c: a, v: IdArg::Foreign { dc, back: r.range(1, 3) as u8 }, pay, ch });
+        frag.push(Op::GetSnapshot { c: a });
+        if entry == Entry::Http {
+            frag.retain(|o| !matches!(o, Op::Create { .. }));
+        }
+    frag
+}
+
 pub fn gen_plan(seed: u64, backend: Backend, entry: Entry, focus: Focus, thorough: bool) -> SeqPlan {
     let mut r = Rng::stream(seed, "plan");
     let n_clients = 1 + r.weighted(&[30, 35, 20, 15]) as u8;
@@ -1274,32 +1306,7 @@ pub fn gen_plan(seed: u64, backend: Backend, entry: Entry, focus: Focus, thoroug
     // scripted motif (some runs): a chain that starts from another client's version, then a
     // snapshot request naming an ancestor of that base in the other client's chain
     if n_clients >= 2 && r.chance(12, 100) {
-        let a = r.below(n_clients as u64) as u8;
-        let dc = r.below(3) as u8;
-        let b = ((a as u16 + 1 + (dc as u16 % (n_clients as u16 - 1))) % n_clients as u16) as u8;
-        let mut tag = 900_000u32;
-        let mut mk = |r: &mut Rng| -> (Pay, Chunking) {
-            tag += 1;
-            (Pay { class: r.below(ops::N_CLASSES as u64) as u8, len: r.range(1, 50) as u32, tag }, Chunking::Whole)
-        };
-        let mut frag = vec![Op::Create { c: b }];
-        for _ in 0..r.range(2, 4) {
-            let (pay, ch) = mk(&mut r);
-            frag.push(Op::AddVersion { c: b, parent: IdArg::Latest, pay, ch });
-        }
-        frag.push(Op::Create { c: a });
-        let (pay, ch) = mk(&mut r);
-        frag.push(Op::AddVersion { c: a, parent: IdArg::Foreign { dc, back: r.below(2) as u8 }, pay, ch });
-        for _ in 0..r.range(0, 2) {
-            let (pay, ch) = mk(&mut r);
-            frag.push(Op::AddVersion { c: a, parent: IdArg::Latest, pay, ch });
-        }
-        let (pay, ch) = mk(&mut r);
-        frag.push(Op::AddSnapshot { c: a, v: IdArg::Foreign { dc, back: r.range(1, 3) as u8 }, pay, ch });
-        frag.push(Op::GetSnapshot { c: a });
-        if entry == Entry::Http {
-            frag.retain(|o| !matches!(o, Op::Create { .. }));
-        }
+        let frag = foreign_base_motif(&mut r, n_clients, entry);
         let at = r.below(ops.len() as u64 + 1) as usize;
         for (i, o) in frag.into_iter().enumerate() {
             ops.insert(at + i, o);
